@@ -66,6 +66,10 @@
 //   clr a                       a.clear()
 //   del a                       delete a
 //   w a i v                     element i (canonical order) of a := v, through operator()
+//   inew|inewa|inewp k n v0     k := new X{v0, …, v0+n-1}   (n = 1..4)  the std::initializer_list constructor (vectors)
+//   inewm k r v0                k := new intMatrix{{v0,v0+1,v0+2},{v0+3,v0+4,v0+5}} (r=0) | {{v0,v0+1,v0+2},{v0+3}} (r=1, short row zero-filled)
+//   fnewl x v0                  external block x := new FixedArray<int,false,4>{v0, v0+1, v0+2, v0+3}
+//   ial a n v0                  a = {v0, …, v0+n-1}          assignment of an initializer list to a vector (v, a, p)
 //   failnext k                  fault schedule: the k-th next DATA allocation of the library (internal::alloc_aligned: operator
 //                               new[] for int, posix_memalign for double, both interposed below) fails once with
 //                               std::bad_alloc; the operation that runs into it answers `exc:bad_alloc`
@@ -259,6 +263,27 @@ template <class A> NOINLINE static A view_of_ref(A& p, int lo, int hi, int st) {
 template <class A> NOINLINE static A view_of_val(A p, int lo, int hi, int st) { return p(stride(lo, hi, st)); }
 template <class A> NOINLINE static A sum_of(const A& a, const A& b) { return a + b; }
 NOINLINE static IV wrap(int* p, int n) { return IV(p, dimensions(n)); }
+// ---- std::initializer_list: a vector constructed from / assigned the list {v0, v0+1, …} of n = 1..4 values
+template <class A> static A* from_list(long n, long v0) {
+  typedef typename Tr<A>::T T;
+  T a = (T)v0;
+  switch (n) {
+    case 1: return new A{a};
+    case 2: return new A{a, (T)(a + 1)};
+    case 3: return new A{a, (T)(a + 1), (T)(a + 2)};
+    default: return new A{a, (T)(a + 1), (T)(a + 2), (T)(a + 3)};
+  }
+}
+template <class A> static void assign_list(A& o, long n, long v0) {
+  typedef typename Tr<A>::T T;
+  T a = (T)v0;
+  switch (n) {
+    case 1: o = {a}; break;
+    case 2: o = {a, (T)(a + 1)}; break;
+    case 3: o = {a, (T)(a + 1), (T)(a + 2)}; break;
+    default: o = {a, (T)(a + 1), (T)(a + 2), (T)(a + 3)}; break;
+  }
+}
 
 // ---- storage table
 static SRec* find_sto(void* sp) {
@@ -639,6 +664,29 @@ int main() {
         Ext e; e.n = 4; e.fixed = new FV(); e.base = e.fixed->data(); e.live = true;
         for (long i = 0; i < 4; ++i) (*e.fixed)(i) = (int)(a[2] + i);
         exts[a[1]] = e;
+      } else if (c == "fnewl" && na == 2) {
+        if (a[1] < 0 || exts.count(a[1])) BAD
+        int v = (int)a[2];
+        Ext e; e.n = 4; e.fixed = new FV{v, v + 1, v + 2, v + 3}; e.base = e.fixed->data(); e.live = true;
+        exts[a[1]] = e;
+      } else if (c == "inewm" && na == 3) {
+        if (a[1] < 0 || exists(a[1]) || a[2] < 0 || a[2] > 1) BAD
+        int v = (int)a[3];
+        IM* o = a[2] == 0 ? new IM{{v, v + 1, v + 2}, {v + 3, v + 4, v + 5}} : new IM{{v, v + 1, v + 2}, {v + 3}};
+        add(a[1], o);
+      } else if (c.compare(0, 4, "inew") == 0) {
+        std::string sfx = c.substr(4);
+        int kd = kind_of_sfx(sfx, false);
+        if (kd < 0 || !k_vec(kd) || na != 3 || a[1] < 0 || exists(a[1]) || a[2] < 1 || a[2] > 4) BAD
+        if (kd == KV) add(a[1], from_list<IV>(a[2], a[3]));
+        else if (kd == KA) add(a[1], from_list<AV>(a[2], a[3]));
+        else add(a[1], from_list<DV>(a[2], a[3]));
+      } else if (c == "ial" && na == 3) {
+        if (!get(a[1], x) || !k_vec(x.kind) || a[2] < 1 || a[2] > 4) BAD
+        if (!usable(x)) SKIP
+        if (x.kind == KV) assign_list(*static_cast<IV*>(x.p), a[2], a[3]);
+        else if (x.kind == KA) assign_list(*static_cast<AV*>(x.p), a[2], a[3]);
+        else assign_list(*static_cast<DV*>(x.p), a[2], a[3]);
       } else if (c == "xw" && na == 3) {
         if (!exts.count(a[1]) || !exts[a[1]].live || a[2] < 0 || a[2] >= exts[a[1]].n) BAD
         exts[a[1]].base[a[2]] = (int)a[3];
